@@ -1,0 +1,4 @@
+//! Entry points for the out-of-tree verification harness (`--cfg rust_lang_rustfmt_verif`).
+//! Each item is a thin wrapper that calls a private kernel with plain arguments.
+
+pub use crate::config::file_lines::verif_hooks as file_lines;
